@@ -491,12 +491,22 @@ func (r *runner) newService(c *conn) *res.Service {
 		c, _ := strconv.Atoi(q.PathParam("c"))
 		r.reqOrder(c, q.PathParam("g"))
 		r.body(c, q.PathParam("g"), false)
-		q.AccessGranted()
+		if c%3 != 1 {
+			v, _ := r.sharedErrs.LoadOrStore(c/2, &res.Error{Message: "shared application error"})
+			q.Error(v.(*res.Error))
+		} else {
+			q.AccessGranted()
+		}
 	}), res.Call("m", func(q res.CallRequest) {
 		c, _ := strconv.Atoi(q.PathParam("c"))
 		r.reqOrder(c, q.PathParam("g"))
 		r.body(c, q.PathParam("g"), false)
-		q.OK(nil)
+		if c%3 != 1 {
+			v, _ := r.sharedErrs.LoadOrStore(c/2, &res.Error{Message: "shared application error"})
+			q.Error(v.(*res.Error))
+		} else {
+			q.OK(nil)
+		}
 	}))
 	// two patterns that share a prefix and diverge literal vs placeholder, both continuing deeper: a name that enters
 	// the literal branch but matches only through the placeholder needs backtracking in the router
@@ -515,16 +525,29 @@ func (r *runner) newService(c *conn) *res.Service {
 	return s
 }
 
-// waitIdle waits until every accepted callback has returned (log-based), with a timeout.
+// settle waits until every accepted callback has returned: as many cb-end notes as enq-new + enq-append notes, and
+// no new log entry for three polls in a row (a quiet log alone is not enough: on a loaded machine the workers may
+// simply not have been scheduled for a while); gives up after d.
 func (r *runner) settle(d time.Duration) {
-	deadline := time.Now().Add(d)
+	deadline := time.Now().Add(3 * d)
 	last := -1
 	stable := 0
 	for time.Now().Before(deadline) {
 		r.rec.mu.Lock()
 		n := len(r.rec.log)
+		acc, done := 0, 0
+		for _, e := range r.rec.log {
+			switch e.kind {
+			case "cycle-begin": // callbacks dropped by an earlier cycle's Shutdown are not waited for
+				acc, done = 0, 0
+			case "enq-new", "enq-append":
+				acc++
+			case "cb-end":
+				done++
+			}
+		}
 		r.rec.mu.Unlock()
-		if n == last {
+		if n == last && done >= acc {
 			stable++
 			if stable >= 3 {
 				return
@@ -635,8 +658,8 @@ func (r *runner) run() bool {
 		}
 		cc := c
 		go func() { served <- s.Serve(cc) }()
-		// wait for started
-		for i := 0; i < 2000; i++ {
+		// wait for started (positive evidence; the bound only matters when the service never subscribes)
+		for i := 0; i < 50000; i++ {
 			c.mu.Lock()
 			ch := c.inCh
 			c.mu.Unlock()
@@ -651,7 +674,7 @@ func (r *runner) run() bool {
 		c.mu.Unlock()
 		if inCh != nil {
 			// serve() sends system.reset right after subscribing, before it starts listening: it must be on THIS connection
-			for i := 0; i < 2000 && atomic.LoadInt32(&r.resets[c.gen%8]) == 0; i++ {
+			for i := 0; i < 50000 && atomic.LoadInt32(&r.resets[c.gen%8]) == 0; i++ {
 				time.Sleep(100 * time.Microsecond)
 			}
 			if atomic.LoadInt32(&r.resets[c.gen%8]) == 0 {
@@ -1233,18 +1256,30 @@ func (r *runner) runD9() bool {
 			return false
 		}
 		go func() { served2 <- s.Serve(c2) }()
-		select {
-		case <-served2:
-			if time.Now().After(holdUntil) {
-				releaseAll()
+		// the attempt is over when Serve has returned (refused: try again) or the start-up reset of the new cycle has
+		// appeared on its connection (served); no conclusion is drawn from the mere passing of time
+		for attempt := true; attempt; {
+			select {
+			case <-served2:
+				if time.Now().After(holdUntil) {
+					releaseAll()
+				}
+				time.Sleep(300 * time.Microsecond)
+				attempt = false
+			default:
+				if atomic.LoadInt32(&r.resets[1]) > 0 {
+					serving, attempt = true, false
+				} else if time.Now().After(giveUp) {
+					r.violation("no-reset: a retried Serve neither returned nor published system.reset on the connection it was given within 4 s")
+					return false
+				} else {
+					time.Sleep(100 * time.Microsecond)
+				}
 			}
-			time.Sleep(300 * time.Microsecond)
-		case <-time.After(25 * time.Millisecond):
-			serving = true
 		}
 	}
 	atomic.StoreInt32(&r.curGen, 1)
-	for i := 0; i < 2000 && atomic.LoadInt32(&r.resets[1]) == 0; i++ {
+	for i := 0; i < 50000 && atomic.LoadInt32(&r.resets[1]) == 0; i++ {
 		time.Sleep(100 * time.Microsecond)
 	}
 	if atomic.LoadInt32(&r.resets[1]) == 0 {
@@ -1426,6 +1461,7 @@ func (r *runner) runRestartLoop() bool {
 		return false
 	}
 	late := 0
+	lateAfter := 3 * time.Second
 	for i := 1; i <= rounds; i++ {
 		atomic.StoreInt32(&r.resets[(i+1)%8], 0)
 		var e2 error
@@ -1471,10 +1507,11 @@ func (r *runner) runRestartLoop() bool {
 		}
 		select {
 		case <-served:
-		case <-time.After(300 * time.Millisecond):
+		case <-time.After(lateAfter):
 			late++
 			if late == 1 {
-				r.violation(fmt.Sprintf("serve-late: round %d: the previous Serve call had not returned 300 ms after Shutdown returned and a new cycle was being served", i))
+				r.violation(fmt.Sprintf("serve-late: round %d: the previous Serve call had not returned 3 s after Shutdown returned and a new cycle was being served", i))
+				lateAfter = time.Millisecond
 			}
 		}
 		served = next
@@ -1771,6 +1808,20 @@ func runScenario(sc scenario) (Case, []ImplViolation, bool) {
 	r.rec.mu.Lock()
 	log := append([]entry{}, r.rec.log...)
 	r.rec.mu.Unlock()
+	// a scenario that leaves its service running (shutdown "none") must not leak goroutines into the next scenario,
+	// whose hooks are process-wide: stop it now that the hooks are off and the log is taken
+	if r.s != nil {
+		stopped := make(chan struct{})
+		go func() {
+			defer close(stopped)
+			defer func() { recover() }()
+			r.s.Shutdown()
+		}()
+		select {
+		case <-stopped:
+		case <-time.After(5 * time.Second):
+		}
+	}
 	cv := &conv{r: r, widx: map[uint64]int{}, retired: map[uint64]bool{}, running: map[uint64]int{}, prod: map[uint64]int{},
 		pub: map[uint64]int{}, subIdx: map[uint64]int{}, groupNum: map[string]int{}, svc: "stopped"}
 	if sc.Kind != "d9" && sc.Kind != "d11" && sc.Kind != "restartloop" {
@@ -1858,6 +1909,11 @@ func main() {
 			scs = append(scs, scenario{Kind: "random", Workers: 0, InCh: 1024, Producers: 2 + rng.Intn(3), PerProd: 3 + rng.Intn(4),
 				Groups: groupSets[rng.Intn(3)], Requests: 4, Cycles: 1, Shutdown: []string{"none", "after"}[i%2], Seed: rng.Next() % 1000000})
 		}
+		// requests for a resource no handler matches (every second request, seed%4 == 0) while Shutdown is called
+		for i := 0; i < ns+1; i++ {
+			scs = append(scs, scenario{Kind: "random", Workers: []int{1, 2, 8}[rng.Intn(3)], InCh: []int{2, 1024}[i%2], Producers: 1, PerProd: 2,
+				Groups: groupSets[rng.Intn(3)], Requests: 40, Cycles: 1 + rng.Intn(2), Shutdown: "during", Seed: rng.Next() % 1000000 / 4 * 4})
+		}
 		nb := 3
 		if o.Tier == "thorough" {
 			nb = 30
@@ -1895,8 +1951,9 @@ func main() {
 				Requests: 400, Groups: []string{"g1"}, Cycles: 1, Shutdown: "after", Seed: rng.Next()%1000000/4*4 + 1})
 		}
 		for i := 0; i < nd; i++ {
+			// every second one on a Parallel resource (seed%4 == 1)
 			scs = append(scs, scenario{Kind: "d8", Workers: []int{1, 2, 32}[rng.Intn(3)], InCh: 1024, Groups: groupSets[rng.Intn(3)],
-				Cycles: 2 + rng.Intn(2), Shutdown: []string{"none", "after"}[rng.Intn(2)], Seed: rng.Next() % 1000000})
+				Cycles: 2 + rng.Intn(2), Shutdown: []string{"none", "after"}[rng.Intn(2)], Seed: rng.Next()%1000000/4*4 + uint64(i%2)})
 		}
 		for i := 0; i < nd; i++ {
 			for _, k := range []string{"d1", "d2", "d3", "d4", "d5", "d6", "d7", "d10"} {
